@@ -334,6 +334,51 @@ func init() {
 		ao := st.obj(av.Obj)
 		return Slice{Obj: av.Obj, Off: U64(0), Len: ao.Len, Cap: ao.Len}
 	}
+	harnessAPI["vConcurrently"] = func(e *Engine, st *State, a []Value, ci ssa.CallInstruction) Value {
+		cl := a[0].(Closure)
+		fr := st.top()
+		fr.ip++
+		st.sharedMax = st.nextObj
+		e.pushFrame(st, cl.Fn, nil, cl.Binds)
+		st.top().discard = true
+		return pushedFrame{}
+	}
+	harnessAPI["vSharedBegin"] = func(e *Engine, st *State, a []Value, ci ssa.CallInstruction) Value {
+		st.sharedMax = st.nextObj
+		return nil
+	}
+	harnessAPI["vSharedEnd"] = func(e *Engine, st *State, a []Value, ci ssa.CallInstruction) Value {
+		st.sharedMax = 0
+		return nil
+	}
+	// vSetField(p, v, path...): model-side write of an (unexported) struct field
+	harnessAPI["vSetField"] = func(e *Engine, st *State, a []Value, ci ssa.CallInstruction) Value {
+		p := asPtr(a[0])
+		val := a[1]
+		if ifc, ok := val.(Iface); ok && ifc.T != nil && !types.IsInterface(ifc.T) {
+			// keep interface values as they are when the field is an interface; unwrap otherwise
+			val = ifc
+		}
+		ps := a[2].(Slice)
+		n := st.concreteSize(ps.Len, "vSetField path")
+		path := append([]int(nil), p.Path...)
+		if n > 0 {
+			po := st.obj(ps.Obj)
+			off := st.concreteIndex(ps.Off, 1<<20, "vSetField")
+			for i := 0; i < n; i++ {
+				path = append(path, int(po.Cells[off+i].(BV).T.C))
+			}
+		}
+		w := st.wobj(p.Obj)
+		old := getPath(w.Cells[p.Cell], path)
+		if _, isIface := old.(Iface); !isIface {
+			if ifc, ok := val.(Iface); ok {
+				val = ifc.V
+			}
+		}
+		w.Cells[p.Cell] = setPath(w.Cells[p.Cell], path, val)
+		return nil
+	}
 	harnessAPI["vExpectPanic"] = func(e *Engine, st *State, a []Value, ci ssa.CallInstruction) Value {
 		st.expectPanic = true
 		return nil
